@@ -19,9 +19,14 @@ RULE = ("S->C: for every generated integer / bits / VarUInteger type (all widths
         "ValueFlow v1/v2) judges, for each real block of the repository (six), its BlockInfo and ValueFlow, every entry of its "
         "InMsgDescr and OutMsgDescr (leaf = extra value, found by the driver's own dictionary walk, which must list the same keys "
         "as the library) and every account record reachable in the old and new shard state of its Merkle update (records whose "
-        "sub-cells are pruned away are only required not to be mis-read). Quick samples the entries of the large blocks and skips "
+        "sub-cells are pruned away are only required not to be mis-read). Quick takes at most 48 entries of each dictionary (spread over its keys) and skips "
         "records that unfold beyond 400 cells (thorough: all entries, 1000 cells). Non-trivial = "
         "anything but the all-zero value; distinct = distinct (type, cell).")
+
+
+def _t(ck, what):
+    import time
+    vlib.log("%s: %s at %.1fs" % (ck.pid, what, time.time() - ck.t0))
 
 
 def run(ck):
@@ -30,8 +35,10 @@ def run(ck):
                        "values are handed to the Go side through the harness's reflection Undump / Dump (self-checked: Dump(Undump(v)) = v)"]
     tlbcommon.regen_types(ck)
     ck.build_vh()
+    _t(ck, "harness built")
     # ---- S->C primitives
     vecs, out = tlbcommon.prim_vectors(ck)
+    _t(ck, "primitive vectors replayed")
     for v, r in zip(vecs, out):
         if r["match"]:
             ck.traces_ok += 1
@@ -48,11 +55,13 @@ def run(ck):
     # ---- C->S core structures and real data
     schema = tlbcommon.schema_file(ck)
     traces = cellcommon.drive_shards(ck, "C04")
+    _t(ck, "drivers done (%d MB of events)" % (sum(os.path.getsize(t) for t in traces) >> 20))
     def val(tp):
         return ck.validate_events("Tlb_Trace", "trace/Tlb_Trace.cfg", tp, timeout=3000, name="trace_" + os.path.basename(tp)[6:8], heap_gb=3,
                                   extra_files={"schema.json": schema})
     kinds, distinct = {}, set()
     judged = {"enc": 0, "dec": 0, "enc+dec": 0, "none": 0}
+    ctors = {}
     real = {}          # type -> {records, by Enc, by Dec, with a non-empty dictionary judged by Dec, not decidable (pruned), too big}
     def rec(t):
         return real.setdefault(t, {"records": 0, "judged_by_Enc": 0, "judged_by_Dec": 0, "judged_by_Dec_only": 0, "pruned_not_comparable": 0, "too_big_skipped": 0})
@@ -73,6 +82,21 @@ def run(ck):
             r["judged_by_Dec"] += b in ("dec", "enc+dec")
             r["judged_by_Dec_only"] += b == "dec"
             r["pruned_not_comparable"] += (b == "none" and bool(e.get("exotic")))
+            # which constructors of the tagged unions the real data exercised
+            try:
+                if e["type"] in ("InMsgDescrLeaf", "OutMsgDescrLeaf"):
+                    ctors[e["type"][:-9] + "." + e["v"][1]["c"]] = ctors.get(e["type"][:-9] + "." + e["v"][1]["c"], 0) + 1
+                elif e["type"] == "ShardAccountsLeaf" and b != "none":
+                    acc = e["v"][1][0]
+                    name = "Account." + acc["c"] + ("/" + acc["v"][2][2]["c"] if acc["c"] == "Account" else "")
+                    ctors[name] = ctors.get(name, 0) + 1
+                elif e["type"] == "ValueFlow":
+                    ctors["ValueFlow." + e["v"]["c"]] = ctors.get("ValueFlow." + e["v"]["c"], 0) + 1
+                elif e["type"] == "BlockInfo":
+                    name = "BlockInfo.prev_ref=" + e["v"][23]["c"] + (",master_ref" if e["v"][22]["has"] else "") + (",gen_software" if e["v"][21]["has"] else "")
+                    ctors[name] = ctors.get(name, 0) + 1
+            except (KeyError, IndexError, TypeError):
+                pass
         for rj in rejected:
             e = rj["event"]
             note = (notes.get(rj["line"]) or [["no-action"]])[0][0]
@@ -86,11 +110,13 @@ def run(ck):
             kinds[e.get("k")] = kinds.get(e.get("k"), 0) + 1
             if e.get("k") in ("ENC", "DECSRC", "REENC") and e.get("tree"):
                 distinct.add((e["type"], e["tree"][:200], len(e["tree"])))
+    _t(ck, "traces judged")
     ck.extra["events_by_kind"] = kinds
     ck.extra["bits_judged_by"] = judged
     ck.extra["events_judged_by_Dec"] = judged["dec"] + judged["enc+dec"]
     ck.extra["events_judged_by_Dec_only_nonunique_encoding"] = judged["dec"]
     ck.extra["real_records"] = real
+    ck.extra["real_constructors_seen"] = dict(sorted(ctors.items()))
     for t in ("Transaction", "Message", "BlockInfo", "ValueFlow", "InMsgDescrLeaf", "OutMsgDescrLeaf", "ShardAccountsLeaf"):
         if real.get(t, {}).get("judged_by_Dec", 0) < 1:
             raise Infra("no real %s record was judged by the specification's decoder" % t)
@@ -103,12 +129,28 @@ def run(ck):
     c1 = copy.deepcopy(enc); c1["tree"] = c1["tree"].replace("0", "1", 1) if c1["tree"][2] == "0" else c1["tree"][:2] + "0" + c1["tree"][3:]
     c2 = copy.deepcopy(dec); c2["tree2"] = c2["tree2"][:-3] + "0]}" if not c2["tree2"].endswith("0]}") else c2["tree2"] + "x"
     c3 = copy.deepcopy(dec); c3["dec"] = "panic: boom"
+    # the decoder's opinion alone. A transaction with out-messages (no unique encoding: only Dec judges its bits): one bit of
+    # the out-message dictionary changed / the recorded value text changed. A BlockInfo: one flag bit of the structured source changed.
+    allev = [e for t in traces for e in vlib.read_ndjson(t)]
+    dtx = next((e for e in allev if e.get("k") == "DECSRC" and e["type"] == "Transaction" and not e["unique"] and e["dec"] == "ok"
+                and e["v"][9][1] and len(json.dumps(e)) < 60000), None)
+    binfo = next((e for e in allev if e.get("k") == "DECSRC" and e["type"] == "BlockInfo" and e["dec"] == "ok"), None)
+    if dtx is None or binfo is None:
+        raise Infra("no transaction with out-messages / no BlockInfo record among the recorded events")
+    c4 = copy.deepcopy(dtx)
+    node = c4["tj"]["r"][0]["r"][-1]          # root edge of out_msgs:(HashmapE 15 ^Message)
+    while not node["b"]:
+        node = node["r"][0]
+    node["b"] = node["b"][:-1] + ("1" if node["b"][-1] == "0" else "0")
+    c5 = copy.deepcopy(dtx); c5["ds"] = c5["ds"].replace("true", "false", 1) if "true" in c5["ds"] else c5["ds"] + " "
+    c6 = copy.deepcopy(binfo); b = c6["tj"]["b"]; c6["tj"]["b"] = b[:64] + ("1" if b[64] == "0" else "0") + b[65:]   # not_master
     p = os.path.join(ck.work, "canary.ndjson")
-    vlib.write_ndjson(p, [c1, c2, c3, enc, dec, {"k": "End"}])
+    vlib.write_ndjson(p, [c1, c2, c3, enc, dec, c4, c5, c6, dtx, binfo, {"k": "End"}])
     st = (ck.states, ck.transitions, ck.traces_ok, ck.evaluations)
     _, rej = ck.validate_events("Tlb_Trace", "trace/Tlb_Trace.cfg", p, name="canary", extra_files={"schema.json": schema})
     ck.states, ck.transitions, ck.traces_ok, ck.evaluations = st
-    ck.canary("C->S: flipped cell bit / altered re-encoding / recorded panic rejected, originals accepted", [r["line"] for r in rej] == [1, 2, 3])
+    ck.canary("C->S: flipped cell bit / altered re-encoding / recorded panic rejected, originals accepted; Dec alone: changed bit in an out-message "
+              "dictionary / changed value text / changed BlockInfo flag bit rejected, originals accepted", [r["line"] for r in rej] == [1, 2, 3, 6, 7, 8])
     return ck.finish(rule=RULE, distinct=len(distinct) + len(vecs))
 
 
